@@ -212,6 +212,9 @@ def run():
         props = sorted(anc.get(m["file"], []), key=SPEED.index)
         if only:
             props = [p for p in props if p in only]
+        # a file anchored by many properties: the listing-based byte/CFG/closure checks first, at most five
+        pref = ["C01", "C03", "C05", "C09", "C02", "C04", "C06", "C08"]
+        props = sorted(props, key=lambda p: (pref.index(p) if p in pref and len(props) > 5 else 99, SPEED.index(p)))[:5]
         if not props:
             continue
         d = mutated_tree(m["file"], m)
